@@ -158,12 +158,47 @@ def r4(ctx, prog):
     ctx.floor(R, 4)
 
 
+def r5(ctx, prog):
+    R = ctx.rule("C19.R5", "the aligned entry points keep their contract behind the override: posix_memalign / memalign / aligned_alloc / valloc / pvalloc obtain their memory "
+                           "only from an aligned allocation call that receives the requested alignment (never from plain malloc on the belief that every block is aligned enough)")
+    ALIGNED = ("mi_malloc_aligned", "mi_heap_malloc_aligned", "mi_malloc_aligned_at", "mi_heap_malloc_aligned_at", "mi_zalloc_aligned", "mi_memalign")
+    n = 0
+    for name, ak in (("mi_posix_memalign", 1), ("mi_memalign", 0), ("mi_aligned_alloc", 0)):
+        if not prog.has(name):
+            continue
+        f = prog.fn(name)
+        al = f.param_id(ak)
+        for c in f.calls():
+            cal = f.nodes[c].get("callee") or ""
+            if not (cal.startswith(("mi_malloc", "mi_zalloc", "mi_calloc", "mi_heap_malloc", "mi_heap_zalloc", "_mi_heap_malloc", "mi_memalign")) ):
+                continue
+            n += 1
+            vals = [v for a in f.nodes[c]["args"] for v in rl.values_of(f, a)]
+            ok = cal in ALIGNED and any(rl.var_of(f, v) == al for v in vals)
+            ctx.check(R, ok, f.where(c), "%s allocates with %s(…, alignment, …)" % (name, cal) if ok else "%s allocates with %s, which does not receive the requested alignment" % (name, cal),
+                      key="C19.R5:%s" % name)
+    for name in ("mi_valloc", "mi_pvalloc"):
+        if not prog.has(name):
+            continue
+        f = prog.fn(name)
+        for c in f.calls():
+            cal = f.nodes[c].get("callee") or ""
+            if cal.startswith(("mi_malloc", "mi_zalloc", "mi_heap_malloc", "mi_memalign")):
+                n += 1
+                vals = [v for a in f.nodes[c]["args"] for v in rl.values_of(f, a)]
+                ok = cal in ALIGNED and any(rl.is_call(f, v, "_mi_os_page_size") for v in vals)
+                ctx.check(R, ok, f.where(c), "%s allocates page-aligned through %s" % (name, cal), key="C19.R5:%s" % name)
+    if n < 4:
+        ctx.broke("C19.R5: only %d allocation calls in the aligned entry points" % n)
+    ctx.floor(R, 4)
+
+
 def run(ctx):
     ctx.explanation = ("Static decision of C19's code-shaped necessary conditions from the AST of the override build: presence, visibility, target and argument permutation of "
                        "all 49 overriding symbols against an oracle table taken from ISO C/POSIX/glibc/Itanium ABI; call-graph check that every target is served by this "
                        "library's allocator. NOT decided: what the dynamic linker binds at run time.")
     prog = ctx.prog("REL")
-    r1(ctx, prog); r2(ctx, prog); r3(ctx, prog); r4(ctx, prog)
+    r1(ctx, prog); r2(ctx, prog); r3(ctx, prog); r4(ctx, prog); r5(ctx, prog)
     if ctx.tier == "thorough":
         for c in ("SEC", "DBG"):
             p2 = ctx.prog(c)
